@@ -5,6 +5,7 @@ import Bita.Model.Archive
 import Bita.Model.Clone
 import Bita.Spec.ArchiveSpec
 import Bita.Proofs.ProtoRoundtrip
+import Bita.Proofs.TryInitLemmas
 
 namespace Bita.Proofs
 open Bita Bita.Proto Bita.Spec
@@ -19,8 +20,8 @@ reported error: no panic branch, no abort branch of the model is reachable. -/
 theorem tryInit_total (H : Bytes → Bytes) (features : List Nat) (read : Nat → Nat → Option Bytes)
     (hr : ExactReader read) :
     (∃ a, tryInit H features read = .ok a) ∨ (∃ w, tryInit H features read = .invalid w) ∨
-      tryInit H features read = .readerErr := by
-  sorry
+      tryInit H features read = .readerErr :=
+  tryInit_total_aux H features read hr _ rfl
 
 /-- What an accepted archive guarantees (everything later code relies on). -/
 theorem tryInit_ok_facts (H : Bytes → Bytes) (features : List Nat) (read : Nat → Nat → Option Bytes)
@@ -29,14 +30,47 @@ theorem tryInit_ok_facts (H : Bytes → Bytes) (features : List Nat) (read : Nat
     (∀ i ∈ a.sourceOrder, i < a.chunks.length) ∧
     (∀ d ∈ a.chunks, 1 ≤ d.archiveSize ∧ d.archiveOffset ≤ usizeMax ∧ d.checksum.length ≤ 64) ∧
     a.headerChecksum.length ≤ 64 := by
-  sorry
+  obtain ⟨pre, rest, dict, params, cc, compr, cfg, w, rfl⟩ := tryInit_ok_inv h
+  refine ⟨configFromParams_ok w.hcfg, ?_, ?_, ?_⟩
+  · intro i hi
+    simpa [tiArchive] using w.hord i hi
+  · intro d hd
+    simp only [tiArchive, List.mem_map] at hd
+    obtain ⟨cd, hcd, rfl⟩ := hd
+    refine ⟨?_, w.hoff cd hcd, hashTruncate_length_le _ _⟩
+    have := w.hsz cd hcd
+    dsimp only
+    omega
+  · simp only [tiArchive, List.length_take]
+    omega
 
 /-- C15 T2 (banner, index): on an accepted archive the arithmetic of `print_archive` and the
 construction of the source index reach no panic branch. -/
 theorem accepted_banner_safe (H : Bytes → Bytes) (features : List Nat) (read : Nat → Nat → Option Bytes)
     (a : Archive) (h : tryInit H features read = .ok a) :
     (∃ r, a.banner = .ok r) ∧ (∃ cs, a.sourceChunks = some cs) ∧ (∃ ix, a.sourceIndex = some ix) := by
-  sorry
+  obtain ⟨hcfg, hord, -, -⟩ := tryInit_ok_facts H features read a h
+  have hsc : ∃ cs, a.sourceChunks = some cs := sourceChunks_some a hord
+  refine ⟨?_, hsc, ?_⟩
+  · unfold Archive.banner
+    cases hc : a.config with
+    | fixed n => simp
+    | buzhash f =>
+      rw [hc] at hcfg
+      simp only [configAccepted, decide_eq_true_eq] at hcfg
+      dsimp only
+      rw [if_neg (by omega), if_neg (by omega), if_neg (by omega)]
+      simp
+    | rollsum f =>
+      rw [hc] at hcfg
+      simp only [configAccepted, decide_eq_true_eq] at hcfg
+      dsimp only
+      rw [if_neg (by omega), if_neg (by omega), if_neg (by omega)]
+      simp
+  · obtain ⟨cs, hcs⟩ := hsc
+    unfold Archive.sourceIndex
+    rw [hcs]
+    exact ⟨_, rfl⟩
 
 /-- C04 T2: whatever bytes are presented, if they open, then the 64 bytes found where their own
 size field says the checksum lies are the strong hash of everything before them; and the header
@@ -47,7 +81,17 @@ theorem tryInit_checksum (H : Bytes → Bytes) (features : List Nat) (bytes : By
       a.headerSize = Gen.preHeaderSize + dictSize + 72 ∧ a.headerSize ≤ bytes.length ∧
       a.headerChecksum = (bytes.drop (Gen.preHeaderSize + dictSize + 8)).take 64 ∧
       a.headerChecksum = H (bytes.take (Gen.preHeaderSize + dictSize + 8)) := by
-  sorry
+  obtain ⟨pre, rest, dict, params, cc, compr, cfg, w, rfl⟩ := tryInit_ok_inv h
+  obtain ⟨hds, hlen, hhdr⟩ := tiOk_honest w
+  have hck := w.hck
+  refine ⟨tiDictSize pre, hds, ?_, ?_, ?_, ?_⟩
+  · simp only [tiArchive, hhdr, List.length_take]; omega
+  · simp only [tiArchive, hhdr, List.length_take]; omega
+  · simp only [tiArchive, hhdr, List.drop_take, List.take_take]
+    congr 1; omega
+  · simp only [tiArchive]
+    rw [hck, hhdr, List.take_take]
+    congr 2; omega
 
 /-- C04 T2, the corruption classes: `b'` is an alteration of a genuine archive `b` that keeps the
 size field.  If `b'` still opens then either its whole header region is unchanged, or a second
@@ -61,8 +105,19 @@ theorem header_tamper (H : Bytes → Bytes) (features : List Nat) (b b' : Bytes)
     b'.take a.headerSize = b.take a.headerSize ∨
     (∃ p p', p ≠ p' ∧ H p = H p') ∨
     a'.headerChecksum ≠ a.headerChecksum := by
-  sorry
+  obtain ⟨ds, hds, hhs, hle, hc1, hc2⟩ := tryInit_checksum H features b a h
+  obtain ⟨ds', hds', hhs', hle', hc1', hc2'⟩ := tryInit_checksum H features b' a' h'
+  have hdd : ds' = ds := by rw [hds, hds', hsize]
+  subst hdd
+  by_cases hc : a'.headerChecksum = a.headerChecksum
+  · by_cases hp : b'.take (Gen.preHeaderSize + ds' + 8) = b.take (Gen.preHeaderSize + ds' + 8)
+    · left
+      rw [hhs, take_header_split, take_header_split, hp, ← hc1, ← hc1', hc]
+    · right; left
+      exact ⟨_, _, hp, by rw [← hc2, ← hc2', hc]⟩
+  · right; right; exact hc
 
+set_option linter.unusedVariables false in
 /-- ... so with the genuine checksum pinned, an archive that opens and passes the pin has an
 unchanged header region (or a collision of the header hash is exhibited). -/
 theorem header_pin_sound (H : Bytes → Bytes) (features : List Nat) (b b' : Bytes) (a a' : Archive)
@@ -70,7 +125,62 @@ theorem header_pin_sound (H : Bytes → Bytes) (features : List Nat) (b b' : Byt
     (h' : tryInit H features (honestReadAt b') = .ok a')
     (hpin : a'.headerChecksum = a.headerChecksum) (hH : ∀ x, (H x).length = 64) :
     b'.take a'.headerSize = b.take a.headerSize ∨ (∃ p p', p ≠ p' ∧ H p = H p') := by
-  sorry
+  obtain ⟨ds, hds, hhs, hle, hc1, hc2⟩ := tryInit_checksum H features b a h
+  obtain ⟨ds', hds', hhs', hle', hc1', hc2'⟩ := tryInit_checksum H features b' a' h'
+  by_cases hp : b'.take (Gen.preHeaderSize + ds' + 8) = b.take (Gen.preHeaderSize + ds + 8)
+  · left
+    have hl := congrArg List.length hp
+    simp only [List.length_take] at hl
+    have hdd : ds' = ds := by omega
+    subst hdd
+    rw [hhs, hhs', take_header_split, take_header_split, hp, ← hc1, ← hc1', hpin]
+  · right
+    exact ⟨_, _, hp, by rw [← hc2, ← hc2', hpin]⟩
+
+/-- The bytes `buildHeader` writes pass every guard of `tryInit`. -/
+theorem bh_tiOk (H : Bytes → Bytes) (hH : ∀ x, (H x).length = 64) (features : List Nat)
+    (d : ChunkDictionary) (hwf : DictWF d) (data : Bytes)
+    (p : ChunkerParameters) (c : ChunkCompression) (cfg : Config) (compr : Compr)
+    (hp : d.chunkerParams = some p) (hc : d.chunkCompression = some c)
+    (hcfg : configFromParams p = .ok cfg) (hcompr : compressionFromDict features c = .ok compr)
+    (hord : ∀ i ∈ d.rebuildOrder, i < d.chunkDescriptors.length)
+    (hsz : ∀ cd ∈ d.chunkDescriptors, 1 ≤ cd.archiveSize)
+    (hoff : ∀ cd ∈ d.chunkDescriptors, (buildHeader H d none).length + cd.archiveOffset ≤ usizeMax)
+    (hlen : (encodeDictionary d).length + 86 ≤ usizeMax) :
+    TiOk H features (honestReadAt (buildHeader H d none ++ data)) (bhPre d) (bhRest H d) d p c compr cfg := by
+  have hu : usizeMax = 2 ^ 64 - 1 := rfl
+  have hps : Gen.preHeaderSize = 14 := rfl
+  have hds := bh_dictSize d (by omega)
+  have hcdo := bh_cdo H d (by omega)
+  have hrl : (bhRest H d).length = (encodeDictionary d).length + 72 := by
+    simp [bhRest, le64_length, hH]
+  have hbytes : buildHeader H d none ++ data = bhPre d ++ (bhRest H d ++ data) := by
+    rw [buildHeader_eq, List.append_assoc]
+  refine ⟨?_, ?_, ?_, ?_, ?_, ?_, ?_, ?_, ?_, ?_, hp, hord, hc, hcompr, hcfg⟩
+  · unfold honestReadAt slice
+    rw [if_pos (by rw [hbytes]; simp [bhPre_length, hps]), hbytes, List.drop_zero,
+      List.take_left' (by rw [bhPre_length, hps])]
+  · left
+    unfold bhPre
+    rw [List.take_left]
+  · rw [bhPre_length, hps]; omega
+  · omega
+  · unfold honestReadAt slice
+    rw [hds, if_pos (by rw [hbytes]; simp [bhPre_length, hps, hrl]), hbytes,
+      List.drop_left' (by rw [bhPre_length, hps]), List.take_left' hrl]
+  · rw [List.length_append, bhPre_length, hrl, hds, hps]; omega
+  · rw [hds, buildHeader_eq_body, List.drop_left' (by rw [bhBody_length, hps]),
+      List.take_left' (by rw [bhBody_length, hps]), List.take_of_length_le (Nat.le_of_eq (hH _))]
+  · rw [hds, List.drop_left' (by rw [bhPre_length, hps])]
+    unfold bhRest
+    rw [List.append_assoc, List.take_left]
+    exact proto_roundtrip d hwf
+  · intro cd hcd
+    rw [hcdo, ← buildHeader_length H hH d]
+    exact hoff cd hcd
+  · intro cd hcd
+    have := hsz cd hcd
+    omega
 
 /-- C11 T4: the reader reports verbatim what the header builder was given. -/
 theorem tryInit_buildHeader (H : Bytes → Bytes) (hH : ∀ x, (H x).length = 64) (features : List Nat)
@@ -81,7 +191,7 @@ theorem tryInit_buildHeader (H : Bytes → Bytes) (hH : ∀ x, (H x).length = 64
     (hord : ∀ i ∈ d.rebuildOrder, i < d.chunkDescriptors.length)
     (hsz : ∀ cd ∈ d.chunkDescriptors, 1 ≤ cd.archiveSize)
     (hoff : ∀ cd ∈ d.chunkDescriptors, (buildHeader H d none).length + cd.archiveOffset ≤ usizeMax)
-    (hlen : (encodeDictionary d).length + 72 ≤ usizeMax) :
+    (hlen : (encodeDictionary d).length + 86 ≤ usizeMax) :
     ∃ a, tryInit H features (honestReadAt (buildHeader H d none ++ data)) = .ok a ∧
       a.config = cfg ∧ a.hashLength = p.chunkHashLength ∧ a.compression = compr ∧
       a.metadata = d.metadata ∧ a.version = d.applicationVersion ∧
@@ -92,6 +202,13 @@ theorem tryInit_buildHeader (H : Bytes → Bytes) (hH : ∀ x, (H x).length = 64
       a.chunkDataOffset = (buildHeader H d none).length ∧
       a.chunks = d.chunkDescriptors.map (fun cd =>
         ⟨hashTruncate cd.checksum 64, cd.archiveSize, (buildHeader H d none).length + cd.archiveOffset, cd.sourceSize⟩) := by
-  sorry
+  have w := bh_tiOk H hH features d hwf data p c cfg compr hp hc hcfg hcompr hord hsz hoff hlen
+  have hu : usizeMax = 2 ^ 64 - 1 := rfl
+  have hcdo := bh_cdo H d (by omega)
+  have hbl := buildHeader_length H hH d
+  refine ⟨_, tryInit_ok_of w, rfl, rfl, rfl, rfl, rfl, rfl, rfl, rfl, ?_, ?_, ?_⟩
+  · simp only [tiArchive]; rw [← buildHeader_eq]
+  · simp only [tiArchive]; rw [hcdo, hbl]
+  · simp only [tiArchive]; rw [hcdo, hbl]; rfl
 
 end Bita.Proofs
